@@ -609,6 +609,7 @@ fn round(
     _: dom::XmlNode,
     _: &mut model::Context,
 ) -> error::Result<model::Value> {
+    // XPath rounds a half towards positive infinity: round(-0.5) is -0, round(-1.5) is -1.
     let arg = f64::try_from(args.first().unwrap())?;
-    Ok(model::Value::Number(arg.round()))
+    Ok(model::Value::Number((arg + 0.5).floor()))
 }
